@@ -5374,7 +5374,9 @@ impl BytecodeVM {
                             // Try iterator protocol
                             match interp.collect_iterator_values(src_val) {
                                 Ok(Some(values)) => values,
-                                Ok(None) => Vec::new(),
+                                Ok(None) => {
+                                    return Err(JsError::type_error("Spread of a non-iterable value"));
+                                }
                                 Err(e) => return Err(e),
                             }
                         }
@@ -5384,7 +5386,7 @@ impl BytecodeVM {
                         .chars()
                         .map(|c| JsValue::String(JsString::from(c.to_string())))
                         .collect(),
-                    _ => Vec::new(),
+                    _ => return Err(JsError::type_error("Spread of a non-iterable value")),
                 };
 
                 // Append elements to the destination array
